@@ -108,6 +108,30 @@ def run : Sys → List Op → Option Sys
 
 def Sys.init (proxyKey : Key) : Sys := { proxy := Proxy.init proxyKey }
 
+/-! ### command histories of the proxy alone -/
+
+structure Tally where
+  proxy    : Proxy
+  /-- successful `MakeSignerRequest` commands -/
+  made     : Nat := 0
+  /-- successful `ProcessSignerResponse` commands -/
+  accepted : Nat := 0
+
+def execTally (t : Tally) (c : Cmd) : Tally :=
+  match exec t.proxy c, c with
+  | (p', .ok _), .makeSignerRequest _ => { t with proxy := p', made := t.made + 1 }
+  | (p', .ok _), .processSignerResponse _ => { t with proxy := p', accepted := t.accepted + 1 }
+  | (p', _), _ => { t with proxy := p' }
+
+def execAll (p : Proxy) (cs : List Cmd) : Tally := cs.foldl execTally { proxy := p }
+
+def openN (p : Proxy) : Nat := if p.openNonce.isSome then 1 else 0
+
+/-- Admissible and benign-free runs are `run`; this is `run` restricted by a further predicate. -/
+def runWith (ok : Sys → Op → Bool) : Sys → List Op → Option Sys
+  | s, [] => some s
+  | s, o :: t => if admissible s o && ok s o then runWith ok (step s o) t else none
+
 /-! ### ghost counters -/
 
 def cnt {α} [DecidableEq α] (l : List α) (a : α) : Nat := l.count a
